@@ -4,32 +4,37 @@ From Dolt Require Import C31.Model C31.Spec.
 Import ListNotations.
 Local Open Scope N_scope.
 
-(* input: a commit tree (parent position, content), commit 0 is the root, and
-   operations each run on a fresh branch *)
+(* input: a commit tree (parent position, schema of table 1, content), commit 0 is the root,
+   and operations each run on a fresh branch, with a policy for conflicts *)
 Inductive op :=
-| OCp (head c : N)                          (* dolt_cherry_pick(c) with HEAD = head *)
-| ORv (head c : N)                          (* dolt_revert(c) with HEAD = head *)
-| ORb (onto : N) (pl : list (action * N)).  (* dolt_rebase -i onto, plan steps name commits *)
+| OCp (head c : N) (m : onconf)                         (* dolt_cherry_pick(c) with HEAD = head *)
+| ORv (head c : N) (m : onconf)                         (* dolt_revert(c) with HEAD = head *)
+| ORb (tip onto : N) (pl : list (action * N)) (m : onconf).  (* dolt_rebase -i onto on a branch at tip *)
 
-Definition input := (list (option N * content) * list op)%type.
+Definition input := (list (option N * schema * content) * list op)%type.
 
-(* outcome kinds: 0 ok, 1 conflict, 2 no change, 3 invalid plan, 4 other error *)
-Record op_obs := { k_kind : N; k_data : content; k_new : N }.
+(* outcome kinds: 0 ok, 1 conflict, 2 no change, 3 invalid plan, 4 other error,
+   5 conflicts resolved and continued, 6 aborted *)
+Record op_obs := { k_kind : N; k_schema : schema; k_data : content; k_new : N; k_restored : bool; k_pauses : N }.
 Definition obs := list op_obs.
 Definition case := (input * obs)%type.
 
-Definition hist_of (cs : list (option N * content)) : history :=
-  map (fun pc => {| c_parents := match fst pc with Some p => [p] | None => [] end; c_data := snd pc |}) cs.
+Definition hist_of (cs : list (option N * schema * content)) : history :=
+  map (fun pc => {| c_parents := match fst (fst pc) with Some p => [p] | None => [] end; c_data := snd pc |}) cs.
+Definition schema_at (cs : list (option N * schema * content)) (i : N) : schema :=
+  match nth_error cs (N.to_nat i) with Some pc => snd (fst pc) | None => [] end.
 
-Definition mk (k : N) (d : content) (n : N) : op_obs := {| k_kind := k; k_data := d; k_new := n |}.
-Definition bad : op_obs := mk 4 [] 0.
+Definition mk (k : N) (s : schema) (d : content) (n : N) (r : bool) (p : N) : op_obs :=
+  {| k_kind := k; k_schema := s; k_data := d; k_new := n; k_restored := r; k_pauses := p |}.
+Definition bad : op_obs := mk 4 [] [] 0 false 0.
 
-Definition of_pres (r : pres) : op_obs :=
-  match r with
-  | POk d => mk 0 d 1
-  | PConflict => mk 1 [] 0
-  | PNoChange => mk 2 [] 0
-  | PBad => bad
+Definition of_pres2 (sr : schema * pres2) : op_obs :=
+  match snd sr with
+  | QOk d => mk 0 (fst sr) d 1 false 0
+  | QNoChange => mk 2 [] [] 0 false 0
+  | QConflict => mk 1 [] [] 0 false 0
+  | QResolved d => mk 5 (fst sr) d 1 false 1
+  | QAborted d => mk 6 (fst sr) d 0 true 0
   end.
 
 Definition plan_of (h : history) (pl : list (action * N)) : option plan :=
@@ -39,34 +44,39 @@ Definition plan_of (h : history) (pl : list (action * N)) : option plan :=
     | _, _, _ => None
     end) (Some []) pl.
 
-Definition model_op (h : history) (o : op) : op_obs :=
+Definition model_op (cs : list (option N * schema * content)) (o : op) : op_obs :=
+  let h := hist_of cs in
   match o with
-  | OCp hd c =>
-    match data_at h hd, parent_data h c, data_at h c with
-    | Some dh, Some dp, Some dc => of_pres (cherry_pick dh dp dc)
-    | _, _, _ => bad
+  | OCp hd c m =>
+    match data_at h hd, first_parent h c, parent_data h c, data_at h c with
+    | Some dh, Some pi, Some dp, Some dc =>
+      of_pres2 (smerge_proc m (schema_at cs pi) (schema_at cs hd) (schema_at cs c) dp dh dc)
+    | _, _, _, _ => bad
     end
-  | ORv hd c =>
-    match data_at h hd, parent_data h c, data_at h c with
-    | Some dh, Some dp, Some dc => of_pres (revert dh dp dc)
-    | _, _, _ => bad
+  | ORv hd c m =>
+    match data_at h hd, first_parent h c, parent_data h c, data_at h c with
+    | Some dh, Some pi, Some dp, Some dc =>
+      of_pres2 (smerge_proc m (schema_at cs c) (schema_at cs hd) (schema_at cs pi) dc dh dp)
+    | _, _, _, _ => bad
     end
-  | ORb onto pl =>
-    match data_at h onto, plan_of h pl with
-    | Some d0, Some p =>
-      match run_plan d0 p with
-      | ROk s => mk 0 (norm (r_head s)) (N.of_nat (length (r_new s)))
-      | RConflict => mk 1 [] 0
-      | RInvalid => mk 3 [] 0
+  | ORb tip onto pl m =>
+    match data_at h tip, data_at h onto, plan_of h pl with
+    | Some dt, Some d0, Some p =>
+      match run_plan2 m dt d0 p with
+      | R2Ok s n => mk (if n =? 0 then 0 else 5) (schema_at cs onto) (norm (r_head s)) (N.of_nat (length (r_new s))) false n
+      | R2Conflict => mk 1 [] [] 0 false 0
+      | R2Invalid => mk 3 [] [] 0 false 0
+      | R2Aborted d => mk 6 (schema_at cs tip) (norm d) 0 true 0
       end
-    | _, _ => bad
+    | _, _, _ => bad
     end
   end.
 
-Definition model_obs (i : input) : obs := map (model_op (hist_of (fst i))) (snd i).
+Definition model_obs (i : input) : obs := map (model_op (fst i)) (snd i).
 
 Definition op_obs_eqb (a b : op_obs) : bool :=
-  (k_kind a =? k_kind b) && content_eqb (k_data a) (k_data b) && (k_new a =? k_new b).
+  (k_kind a =? k_kind b) && schema_eqb (k_schema a) (k_schema b) && content_eqb (k_data a) (k_data b)
+  && (k_new a =? k_new b) && Bool.eqb (k_restored a) (k_restored b) && (k_pauses a =? k_pauses b).
 
 Fixpoint obs_eqb (a b : obs) : bool :=
   match a, b with
@@ -75,62 +85,94 @@ Fixpoint obs_eqb (a b : obs) : bool :=
   | _, _ => false
   end.
 
-(* The property on what the implementation returned.
-   cherry-pick c onto head: success with exactly the three-way merge (base =
-   parent c, ours = head, theirs = c); a reported conflict only when the merge
-   has one; "no change" only when the merge equals head; and, directly,
-   cherry-picking onto c's own parent gives c's data.
-   revert c on head: the merge with base c, ours head, theirs parent c; reverting
-   HEAD's own commit gives its parent's data.
-   rebase: the data of the fold of cherry-picks of the kept commits in plan order. *)
-Definition merge_outcome_ok (b o t : content) (r : op_obs) : bool :=
-  if k_kind r =? 0 then is_merge3_b b o t (k_data r) && canonical (k_data r)
-  else if k_kind r =? 1 then negb (no_conflict_b b o t)
-  else if k_kind r =? 2 then is_merge3_b b o t o
+(* ---- The property on what the implementation returned ----
+   cherry-pick c onto head: success with exactly the three-way merge (base = parent c, ours =
+   head, theirs = c; with a schema change: in the merged schema); a reported conflict only when
+   the merge has one; "no change" only when the (resolved) merge equals head; after resolving every
+   conflict to one side and --continue: the merge with the conflicting rows of that side; after
+   --abort: exactly the state before the operation.  Directly: cherry-picking onto c's own parent
+   gives c's data and schema, reverting HEAD's own commit gives its parent's data and schema.
+   rebase: the data of the fold of (resolved) cherry-picks of the kept commits in plan order. *)
+Definition is_stop (m : onconf) : bool := match m with Stop => true | _ => false end.
+Definition is_abort (m : onconf) : bool := match m with Abort => true | _ => false end.
+
+Definition outcome_ok (m : onconf) (s : schema) (b o t : content) (r : op_obs) : bool :=
+  let k := k_kind r in
+  if k =? 0 then is_merge3_b b o t (k_data r) && canonical (k_data r) && schema_eqb (k_schema r) s
+  else if k =? 1 then negb (no_conflict_b b o t) && is_stop m
+  else if k =? 2 then
+    is_merge3_b b o t o
+    || match m with Resolve h => negb (no_conflict_b b o t) && is_resolved_b h b o t o | _ => false end
+  else if k =? 5 then
+    match m with
+    | Resolve h => negb (no_conflict_b b o t) && is_resolved_b h b o t (k_data r) && canonical (k_data r) && schema_eqb (k_schema r) s
+    | _ => false
+    end
+  else if k =? 6 then
+    is_abort m && negb (no_conflict_b b o t) && k_restored r && ext_eqb (k_data r) o && canonical (k_data r) && schema_eqb (k_schema r) s
   else false.
 
-Definition oracle_op (h : history) (o : op) (r : op_obs) : bool :=
+(* with a schema change between the three *)
+Definition soutcome_ok (m : onconf) (sb so st : schema) (b o t : content) (r : op_obs) : bool :=
+  let sm := schema_merge sb so st in
+  let rb := reshape sb sm b in let ro := reshape so sm o in let rt := reshape st sm t in
+  let k := k_kind r in
+  if k =? 0 then sclean sb so st b o t && is_merge3_b rb ro rt (k_data r) && canonical (k_data r) && schema_eqb (k_schema r) sm
+  else if k =? 1 then negb (sclean sb so st b o t) && negb (is_abort m)
+  else if k =? 2 then sclean sb so st b o t && schema_eqb sm so && is_merge3_b rb ro rt o
+  else if k =? 6 then
+    is_abort m && negb (sclean sb so st b o t) && k_restored r && ext_eqb (k_data r) o && canonical (k_data r) && schema_eqb (k_schema r) so
+  else false.
+
+Definition merge_ok (m : onconf) (sb so st : schema) (b o t : content) (r : op_obs) : bool :=
+  if schema_eqb sb so && schema_eqb sb st then outcome_ok m so b o t r else soutcome_ok m sb so st b o t r.
+
+(* the two algebraic consequences, stated directly on the observation:
+   [same] = the operation is "onto own parent" / "of HEAD's own commit"; target = what must come back *)
+Definition direct_ok (same : bool) (s_from s_to : schema) (d_from d_to : content) (r : op_obs) : bool :=
+  if same then
+    if schema_eqb s_from s_to && ext_eqb d_from d_to then k_kind r =? 2
+    else (k_kind r =? 0) && ext_eqb (k_data r) d_to && schema_eqb (k_schema r) s_to
+  else true.
+
+Definition oracle_op (cs : list (option N * schema * content)) (o : op) (r : op_obs) : bool :=
+  let h := hist_of cs in
   match o with
-  | OCp hd c =>
-    match data_at h hd, parent_data h c, data_at h c with
-    | Some dh, Some dp, Some dc =>
-      merge_outcome_ok dp dh dc r
-      && (match first_parent h c with
-          | Some p => if p =? hd then if ext_eqb dp dc then k_kind r =? 2
-                                      else (k_kind r =? 0) && ext_eqb (k_data r) dc
-                      else true
-          | None => true end)
-    | _, _, _ => k_kind r =? 4
+  | OCp hd c m =>
+    match data_at h hd, first_parent h c, parent_data h c, data_at h c with
+    | Some dh, Some pi, Some dp, Some dc =>
+      merge_ok m (schema_at cs pi) (schema_at cs hd) (schema_at cs c) dp dh dc r
+      && direct_ok (pi =? hd) (schema_at cs pi) (schema_at cs c) dp dc r
+    | _, _, _, _ => k_kind r =? 4
     end
-  | ORv hd c =>
-    match data_at h hd, parent_data h c, data_at h c with
-    | Some dh, Some dp, Some dc =>
-      merge_outcome_ok dc dh dp r
-      && (if c =? hd then if ext_eqb dp dc then k_kind r =? 2
-                          else (k_kind r =? 0) && ext_eqb (k_data r) dp
-          else true)
-    | _, _, _ => k_kind r =? 4
+  | ORv hd c m =>
+    match data_at h hd, first_parent h c, parent_data h c, data_at h c with
+    | Some dh, Some pi, Some dp, Some dc =>
+      merge_ok m (schema_at cs c) (schema_at cs hd) (schema_at cs pi) dc dh dp r
+      && direct_ok (c =? hd) (schema_at cs c) (schema_at cs pi) dc dp r
+    | _, _, _, _ => k_kind r =? 4
     end
-  | ORb onto pl =>
-    match data_at h onto, plan_of h pl with
-    | Some d0, Some p =>
+  | ORb tip onto pl m =>
+    match data_at h tip, data_at h onto, plan_of h pl with
+    | Some dt, Some d0, Some p =>
       if negb (valid_plan p) then k_kind r =? 3
-      else match fold_picks d0 (kept p) with
-           | Some d => (k_kind r =? 0) && ext_eqb (k_data r) d && canonical (k_data r)
-           | None => k_kind r =? 1
+      else match fold_picks2 m d0 (kept p) with
+           | Some d => ((k_kind r =? 0) || (k_kind r =? 5)) && ext_eqb (k_data r) d && canonical (k_data r)
+           | None => if is_abort m then (k_kind r =? 6) && k_restored r && ext_eqb (k_data r) dt && canonical (k_data r)
+                     else k_kind r =? 1
            end
-    | _, _ => k_kind r =? 4
+    | _, _, _ => k_kind r =? 4
     end
   end.
 
-Fixpoint oracle_ops (h : history) (os : list op) (rs : obs) : bool :=
+Fixpoint oracle_ops (cs : list (option N * schema * content)) (os : list op) (rs : obs) : bool :=
   match os, rs with
   | [], [] => true
-  | o :: os', r :: rs' => oracle_op h o r && oracle_ops h os' rs'
+  | o :: os', r :: rs' => oracle_op cs o r && oracle_ops cs os' rs'
   | _, _ => false
   end.
 
-Definition oracle (i : input) (o : obs) : bool := oracle_ops (hist_of (fst i)) (snd i) o.
+Definition oracle (i : input) (o : obs) : bool := oracle_ops (fst i) (snd i) o.
 
 Definition check_case (c : case) : N :=
   (if obs_eqb (model_obs (fst c)) (snd c) then 0 else 1)
